@@ -1,4 +1,4 @@
-"""C05 — deleting the tip block restores the exact previous node state (blockchain + diffdb level)."""
+"""C05 — deleting the tip block restores the exact previous node state (real Executer + blockchain/diffdb level)."""
 import json
 import os
 from core import cbytes, cbool, ROOT
@@ -22,8 +22,11 @@ MANIFEST = {
             "sequence. Tie: random histories of apply/delete (blocks with/without txs, assets, events, staged "
             "consensus-store ops, finality advances, temp flags, reorgs, re-applies) on the real code; every step's full DB dump is "
             "compared in Coq with the model batch, every delete with the dump before the matching apply (oracle).",
-    "note": "Stays at blockchain+diffdb level (the harness mirrors Executer.processBlock/deleteBlock from Commit on; the full "
-            "Executer is C03/C04/C13). Hypotheses made explicit: transaction ids of the block are fresh (removeBlock deletes "
+    "note": "Two ties: harness/cmd/c05e drives the REAL consensus.Executer (processValidated/deleteBlock of valid blocks with txs, "
+            "events, validator changes, finality advances; twin-node reorg probe; restart) and harness/cmd/c05 the Chain/DataAccess "
+            "+ diffdb batch level with arbitrary staged ops; both are compared in Coq with the same BlockStore model. KNOWN FINDING "
+            "c05:dup-tx: a block repeating a stored transaction id is accepted and its deletion removes the earlier record "
+            "(theorems carrying the freshness hypothesis are named _partial, witness C05_remove_inverts_save_refuted). Hypotheses made explicit: transaction ids of the block are fresh (removeBlock deletes "
             "txID->tx unconditionally; histories that reuse a stored transaction are excluded from the oracle and only "
             "model-checked), deletes at or below the finalized height are outside the property. Fixed in /repo: block cache ran "
             "empty after more removals than cached blocks (nil tip, nil dereference). Opaque encodings are interned injectively "
@@ -464,7 +467,7 @@ def run(ck):
     binp = ck.go_build("c05")
     if not binp:
         return
-    n = "120" if ck.tier == "quick" else "1500"
+    n = "80" if ck.tier == "quick" else "1500"
     recs = ck.run_harness(binp, ["-n", n])
     if recs is None:
         return
@@ -478,7 +481,7 @@ def run(ck):
     evaluate(ck, recs)
     bine = ck.go_build("c05e")
     if bine:
-        erecs = ck.run_harness(bine, ["-n", "25" if ck.tier == "quick" else "300"], out_name="ecases.jsonl")
+        erecs = ck.run_harness(bine, ["-n", "14" if ck.tier == "quick" else "150"], out_name="ecases.jsonl")
         if erecs is not None:
             evaluate_e(ck, erecs)
             ck.extra["executer_histories"] = len(erecs)
